@@ -97,6 +97,8 @@ impl ValidationReport {
         engine: &Engine, config: &Config, initial: bool,
     ) -> Result<(Self, Metrics), RunFailed> {
         #[cfg(routinator_verif)]
+        crate::verif::count("validation.process.calls");
+        #[cfg(routinator_verif)]
         match crate::verif::forced("validation.process") {
             Some(1) => return Err(RunFailed::retry()),
             Some(2) => return Err(RunFailed::fatal()),
